@@ -32,22 +32,24 @@ func init() {
 		}
 	}
 	pt := reflect.TypeOf(edwards25519.Point{})
-	PointLayoutOK = ElemLayoutOK && pt.Size() == 160
-	if PointLayoutOK {
-		want := map[string]uintptr{"x": 0, "y": 40, "z": 80, "t": 120}
-		found := 0
-		for i := 0; i < pt.NumField(); i++ {
-			f := pt.Field(i)
-			if off, ok := want[f.Name]; ok {
-				if f.Offset != off || f.Type != et {
+	// the four coordinates are located by name; other fields (flags, caches a
+	// changed tree may add) are tolerated and left zero-valued on injection
+	PointLayoutOK = ElemLayoutOK
+	found := 0
+	for i := 0; i < pt.NumField(); i++ {
+		f := pt.Field(i)
+		for k, n := range []string{"x", "y", "z", "t"} {
+			if f.Name == n {
+				if f.Type != et {
 					PointLayoutOK = false
 				}
+				pointOff[k] = f.Offset
 				found++
 			}
 		}
-		if found != 4 {
-			PointLayoutOK = false
-		}
+	}
+	if found != 4 {
+		PointLayoutOK = false
 	}
 	st := reflect.TypeOf(edwards25519.Scalar{})
 	ScalarLayoutOK = st.Size() == 32
@@ -81,20 +83,48 @@ func LimbValue(l Limbs) *big.Int {
 	return v
 }
 
-// PointRaw returns the raw 160 bytes of a Point (x,y,z,t limbs).
-func PointRaw(p *edwards25519.Point) [20]uint64 {
-	if !PointLayoutOK {
-		panic("Point layout changed")
-	}
-	return *(*[20]uint64)(unsafe.Pointer(p))
+var pointOff [4]uintptr
+
+// RawPoint is the complete memory image of a Point value (comparable).
+type RawPoint string
+
+// PointRaw returns the raw bytes of the whole Point struct, whatever its
+// layout, for before/after comparisons.
+func PointRaw(p *edwards25519.Point) RawPoint {
+	return RawPoint(unsafe.Slice((*byte)(unsafe.Pointer(p)), unsafe.Sizeof(*p)))
 }
 
-func PointFromRaw(r [20]uint64) *edwards25519.Point {
+// PointLimbs returns the limbs of x, y, z, t (located by field name; if the
+// layout is unknown, read through ExtendedCoordinates).
+func PointLimbs(p *edwards25519.Point) (out [20]uint64) {
+	if PointLayoutOK {
+		for k := 0; k < 4; k++ {
+			l := *(*Limbs)(unsafe.Add(unsafe.Pointer(p), pointOff[k]))
+			copy(out[5*k:], l[:])
+		}
+		return
+	}
+	defer func() { recover() }()
+	X, Y, Z, T := p.ExtendedCoordinates()
+	for k, e := range []*field.Element{X, Y, Z, T} {
+		l := LimbsOf(e)
+		copy(out[5*k:], l[:])
+	}
+	return
+}
+
+// PointFromLimbs builds a Point whose coordinates have exactly these limbs
+// (every other field zero-valued).
+func PointFromLimbs(r [20]uint64) *edwards25519.Point {
 	if !PointLayoutOK {
-		panic("Point layout changed")
+		panic("Point layout unknown")
 	}
 	p := new(edwards25519.Point)
-	*(*[20]uint64)(unsafe.Pointer(p)) = r
+	for k := 0; k < 4; k++ {
+		var l Limbs
+		copy(l[:], r[5*k:5*k+5])
+		*(*Limbs)(unsafe.Add(unsafe.Pointer(p), pointOff[k])) = l
+	}
 	return p
 }
 
@@ -534,7 +564,7 @@ func MakePointFromElems(X, Y, Z, T *field.Element) *edwards25519.Point {
 			l := LimbsOf(e)
 			copy(r[5*i:], l[:])
 		}
-		return PointFromRaw(r)
+		return PointFromLimbs(r)
 	}
 	p, err := new(edwards25519.Point).SetExtendedCoordinates(X, Y, Z, T)
 	if err != nil {
